@@ -4,6 +4,7 @@ CONSTANTS
   MaxParts = 255
   Refs = {0}
   SameRef = FALSE
+  Echo = TRUE
   MaxResend = 1000
 INVARIANT TraceInv
 CHECK_DEADLOCK FALSE
